@@ -17,6 +17,8 @@ import (
 	"sync/atomic"
 	"time"
 
+	"golang.org/x/net/http2"
+	"golang.org/x/net/http2/hpack"
 	"google.golang.org/grpc"
 	"google.golang.org/grpc/codes"
 	"google.golang.org/grpc/metadata"
@@ -70,6 +72,23 @@ type CancelCase struct {
 	// Raw HTTP/1 clients that announce they will not re-use the connection:
 	// "close" (Connection: close header) or "http10" (HTTP/1.0 request line).
 	NoReuse string `json:"no_reuse,omitempty"`
+	// in-recv: where the request stream is cut when the client goes away -
+	// "" / "prefix" inside the next message's length prefix, "boundary"
+	// exactly between two messages, "message" inside the next message's data.
+	// How "rst:<code>" (transport h2raw-grpc: raw http2.Framer client) resets
+	// the stream with that HTTP/2 error code, "conn-close" drops the
+	// connection.
+	Cut string `json:"cut,omitempty"`
+}
+
+func cutLen(cut string, m []byte) int {
+	switch cut {
+	case "boundary":
+		return 0
+	case "message":
+		return min(len(m)-1, 7)
+	}
+	return min(3, len(m)-1)
 }
 
 func (c *CancelCase) class() string {
@@ -98,6 +117,12 @@ func (c *CancelCase) class() string {
 	}
 	if c.NoReuse != "" {
 		t = "+no-reuse-" + c.NoReuse + t
+	}
+	if c.Cut != "" {
+		t = "+cut-" + c.Cut + t
+	}
+	if strings.HasPrefix(c.How, "rst:") || c.How == "conn-close" {
+		t = "+" + c.How + t
 	}
 	p := ""
 	if c.Target != "" {
@@ -669,15 +694,20 @@ func (s *cancelSvc) buildH1(c *CancelCase, id string, ref bool) h1Req {
 		}
 		return wire.Frame(mustMarshal(chunkOfSize(c.MsgSize)), false)
 	}
+	text := c.Text && !isHTTP
+	enc := func(b []byte) []byte {
+		if text && len(b) > 0 {
+			// every message is encoded, and padded, on its own
+			return []byte(base64.StdEncoding.EncodeToString(b))
+		}
+		return b
+	}
 	var body []byte
 	for i := 0; i < n; i++ {
-		body = append(body, one()...)
+		body = append(body, enc(one())...)
 	}
 	if c.Gzip && isHTTP && len(body) > 0 {
 		body = wire.Gzip(body) // Content-Encoding: gzip, one member
-	}
-	if c.Text && !isHTTP {
-		body = []byte(base64.StdEncoding.EncodeToString(body))
 	}
 	q := h1Req{readN: len(body)}
 	if isHTTP && (c.Shape == "unary" || c.Shape == "ss") {
@@ -694,8 +724,8 @@ func (s *cancelSvc) buildH1(c *CancelCase, id string, ref bool) h1Req {
 		if isHTTP && len(m) < 4 {
 			m = []byte(`{"text":"abcdef"}`)
 		}
-		cl += len(m)
-		body = append(body, m[:min(3, len(m)-1)]...)
+		cl += len(enc(m))
+		body = append(body, enc(m[:cutLen(c.Cut, m)])...)
 	}
 	var sb strings.Builder
 	if ref {
@@ -898,6 +928,8 @@ func (s *cancelSvc) runScenario(c *CancelCase, onSlow func()) *cancelOutcome {
 		cl, err = s.startGRPCGo(sc, srv)
 	case "h2c-grpc", "h2c-http":
 		cl, err = s.startH2C(sc, srv)
+	case "h2raw-grpc":
+		cl, err = s.startH2Raw(sc, srv)
 	default:
 		cl, err = s.startH1(sc, srv)
 	}
@@ -1128,6 +1160,10 @@ func (s *cancelSvc) runScenario(c *CancelCase, onSlow func()) *cancelOutcome {
 			}
 			if ev[i].err == nil {
 				add("released-without-error:"+what, fmt.Sprintf("%s returned nil after the client's cancel although the client had sent nothing more", what))
+			} else if ev[i].err == io.EOF && what == "RecvMsg" && c.State == "in-recv" && !c.HalfClose {
+				// the client never ended its request stream (no END_STREAM, no
+				// complete body): its going away is not a half-close
+				add("released-with-clean-end-of-stream:"+what, "the handler's blocked RecvMsg returned io.EOF - a clean half-close - although the client aborted the call with its request stream still open")
 			}
 			return
 		}
@@ -1291,8 +1327,23 @@ func (c *CancelCase) normalise() {
 	if !csShape || c.State == "in-recv" {
 		c.HalfClose = false
 	}
+	inRecvText := c.Text && c.Transport == "h1-web" && c.State == "in-recv" && c.Target == ""
 	if !h1 || c.Target != "" || c.Get || !(c.State == "ctx-wait" || c.State == "between-send" || c.State == "in-send") {
 		c.Framing, c.Text, c.Gzip = "", false, false
+	}
+	c.Text = c.Text || inRecvText
+	if c.State != "in-recv" || c.Shape == "upload" || !(c.Transport == "h1-web" || c.Transport == "h2raw-grpc") {
+		c.Cut = ""
+	}
+	if c.Transport == "h2raw-grpc" {
+		// the raw framer client exists for the ways a stream can be torn down
+		if c.State != "in-recv" || c.Shape == "upload" {
+			c.Transport = "h2c-grpc"
+		} else if !strings.HasPrefix(c.How, "rst:") && c.How != "conn-close" {
+			c.How = "rst:8"
+		}
+	} else if strings.HasPrefix(c.How, "rst:") || c.How == "conn-close" {
+		c.How = "ctx"
 	}
 	if c.Text {
 		c.Gzip = false
@@ -1403,6 +1454,44 @@ func framingCells() []CancelCase {
 	return out
 }
 
+// abortCells: how the client goes away while the handler is blocked in Recv -
+// RST_STREAM with every HTTP/2 error code and a dropped connection (raw
+// framer client), HTTP/1.1 disconnect - x where the request stream is cut x
+// gRPC, gRPC-web binary and text (every message padded on its own) x local
+// and proxied.
+func abortCells() (local, proxied []CancelCase) {
+	base := CancelCase{Part: "cancel", State: "in-recv", K: 2, MsgSize: 5, BigSize: 256 << 10, MaxBig: 384, DelayUS: 5000}
+	i := 0
+	for _, cut := range []string{"boundary", "prefix", "message"} {
+		for _, sh := range []string{"cs", "bidi", "unary", "ss"} {
+			hows := []string{"conn-close"}
+			for code := 0; code <= 0xd; code++ {
+				hows = append(hows, fmt.Sprintf("rst:%d", code))
+			}
+			for _, how := range hows {
+				if (sh == "unary" || sh == "ss") && how != "rst:0" && how != "rst:8" && how != "conn-close" {
+					continue
+				}
+				c := base
+				c.Transport, c.Shape, c.Cut, c.How = "h2raw-grpc", sh, cut, how
+				local = append(local, c)
+				if i++; i%3 == 0 || how == "rst:0" {
+					c.Target = "proxy"
+					proxied = append(proxied, c)
+				}
+			}
+			for _, text := range []bool{false, true} {
+				for _, how := range []string{"tcp", "tcp-rst"} {
+					c := base
+					c.Transport, c.Shape, c.Cut, c.How, c.Text = "h1-web", sh, cut, how, text
+					local = append(local, c)
+				}
+			}
+		}
+	}
+	return local, proxied
+}
+
 // noReuseCells: raw HTTP/1 clients that will not re-use the connection
 // (Connection: close, HTTP/1.0) - a disconnect must reach the handler all the
 // same.
@@ -1502,8 +1591,11 @@ func runCancels(r *mon.Run) {
 	cases = append(cases, framingCells()...)
 	cases = append(cases, burstCells()...)
 	cases = append(cases, noReuseCells()...)
+	abortLocal, abortProxied := abortCells()
+	cases = append(cases, abortLocal...)
 	nLocal := len(cases)
 	cases = append(cases, proxyMatrix()...)
+	cases = append(cases, abortProxied...)
 	// every cell under the all-off and the all-on option mask plus, in
 	// rotation, one of the other masks (quick) or under every mask (thorough);
 	// proxied cells under all-off and all-on (quick)
@@ -1538,6 +1630,14 @@ func runCancels(r *mon.Run) {
 		c.Text = rng.Intn(3) == 0
 		c.Gzip = rng.Intn(4) == 0
 		c.NoReuse = []string{"", "", "", "close", "http10"}[rng.Intn(5)]
+		c.Cut = []string{"", "boundary", "prefix", "message"}[rng.Intn(4)]
+		if rng.Intn(6) == 0 && c.State == "in-recv" && c.Transport == "h2c-grpc" {
+			c.Transport = "h2raw-grpc"
+			c.How = fmt.Sprintf("rst:%d", rng.Intn(14))
+			if rng.Intn(8) == 0 {
+				c.How = "conn-close"
+			}
+		}
 		if (c.Shape == "cs" || c.Shape == "bidi") && rng.Intn(8) == 0 {
 			c.State, c.Burst = "burst-recv", 1+rng.Intn(8)
 			if rng.Intn(3) == 0 {
@@ -1760,4 +1860,92 @@ func debugScenario(c *CancelCase, out *cancelOutcome) {
 		fmt.Fprintf(&sb, "@%dms", e.AtUS/1000)
 	}
 	fmt.Fprintf(os.Stderr, "DEBUG %s how=%s k=%d get=%v observed=%v note=%s inconcl=%q sends_ok=%d:%s\n", c.class(), c.How, c.K, c.Get, out.Observed, out.Note, out.inconclusive, sends, sb.String())
+}
+
+// startH2Raw is a minimal HTTP/2 client on a raw framer (prior knowledge h2c):
+// it opens stream 1 with a gRPC request, sends the planned messages in DATA
+// frames without END_STREAM and later resets the stream with a chosen error
+// code or drops the connection.
+func (s *cancelSvc) startH2Raw(sc *cscn, srv *wire.Server) (*cancelClient, error) {
+	c := sc.spec
+	conn, err := net.Dial("tcp", srv.Addr)
+	if err != nil {
+		return nil, err
+	}
+	if _, err := conn.Write([]byte(http2.ClientPreface)); err != nil {
+		conn.Close()
+		return nil, err
+	}
+	fr := http2.NewFramer(conn, conn)
+	var wmu sync.Mutex
+	write := func(f func() error) error {
+		wmu.Lock()
+		defer wmu.Unlock()
+		return f()
+	}
+	if err := write(func() error { return fr.WriteSettings() }); err != nil {
+		conn.Close()
+		return nil, err
+	}
+	go func() {
+		for {
+			f, err := fr.ReadFrame()
+			if err != nil {
+				return
+			}
+			switch f := f.(type) {
+			case *http2.SettingsFrame:
+				if !f.IsAck() {
+					write(func() error { return fr.WriteSettingsAck() }) //nolint:errcheck
+				}
+			case *http2.PingFrame:
+				if !f.IsAck() {
+					write(func() error { return fr.WritePing(true, f.Data) }) //nolint:errcheck
+				}
+			}
+		}
+	}()
+	var hb bytes.Buffer
+	enc := hpack.NewEncoder(&hb)
+	for _, kv := range [][2]string{
+		{":method", "POST"}, {":scheme", "http"}, {":path", s.std.Full(s.methodOf(c.Shape))}, {":authority", "verif.test"},
+		{"content-type", "application/grpc"}, {"te", "trailers"}, {"x-scn", sc.id},
+	} {
+		enc.WriteField(hpack.HeaderField{Name: kv[0], Value: kv[1]}) //nolint:errcheck
+	}
+	if c.Timeout {
+		enc.WriteField(hpack.HeaderField{Name: "grpc-timeout", Value: "3600S"}) //nolint:errcheck
+	}
+	if err := write(func() error {
+		return fr.WriteHeaders(http2.HeadersFrameParam{StreamID: 1, BlockFragment: hb.Bytes(), EndHeaders: true})
+	}); err != nil {
+		conn.Close()
+		return nil, err
+	}
+	n, _, partial := plan(c)
+	one := wire.Frame(mustMarshal(chunkOfSize(c.MsgSize)), false)
+	var data []byte
+	for i := 0; i < n; i++ {
+		data = append(data, one...)
+	}
+	if partial {
+		data = append(data, one[:cutLen(c.Cut, one)]...)
+	}
+	if len(data) > 0 {
+		if err := write(func() error { return fr.WriteData(1, false, data) }); err != nil {
+			conn.Close()
+			return nil, err
+		}
+	}
+	return &cancelClient{
+		cancel: func() {
+			var code int
+			if _, err := fmt.Sscanf(c.How, "rst:%d", &code); err == nil {
+				write(func() error { return fr.WriteRSTStream(1, http2.ErrCode(code)) }) //nolint:errcheck
+				return
+			}
+			conn.Close()
+		},
+		close: func() { conn.Close() },
+	}, nil
 }
